@@ -451,8 +451,35 @@ def collect_inputs_for_node(
     """
     inputs = {}
     for param in node.inputs:
+        if _left_to_inner_graph(param, node, graph, state, provided_values):
+            continue
         inputs[param] = _resolve_input(param, node, graph, state, provided_values)
     return inputs
+
+
+def _left_to_inner_graph(
+    param: str,
+    node: HyperNode,
+    graph: Graph,
+    state: GraphState,
+    provided_values: dict[str, Any],
+) -> bool:
+    """Check whether a nested graph resolves this input by itself.
+
+    Bindings of the inner graph and signature defaults of its functions belong
+    to the inner run: it passes bound objects by reference and deep-copies
+    defaults once per run (once per item when mapped). Forwarding them from the
+    outer graph would share a single default copy between all items of a map
+    and send inner bindings through the map's clone step.
+    """
+    from hypergraph.nodes.graph_node import GraphNode
+
+    if not isinstance(node, GraphNode):
+        return False
+    if param in state.values or param in provided_values or param in graph._bound:
+        return False
+    map_config = node.map_config
+    return not (map_config and param in map_config[0])
 
 
 def _resolve_input(
